@@ -18,7 +18,7 @@ RULE = ("deterministic corpus (count thresholds n = 49..52 for inserts, deletion
         "clocks that move between the readings of one conditional_commit; the eager store) then seeded random "
         "histories of 20-140 calls in four profiles (mixed, bursts, trickles, bulk); every SQL statement boundary "
         "and every commit step is a crash point observed through a second connection; peewee: the same through a "
-        "second connection at every statement; thorough adds real SIGKILLs. non-trivial = distinct history in "
+        "second connection at every statement; thorough adds real SIGKILLs and exits without shutdown of a child process, then a reopen. non-trivial = distinct history in "
         "which a conditional_commit both buffered (no flush) and flushed at least once")
 
 REPLAY_CMD = "PYTHONPATH=%s:%s /venv/bin/python -m harness.c06_replay '%s'"
@@ -153,8 +153,9 @@ def run_sigkill(ck, n_runs, seed):
     from . import c06_kill
     for i in range(n_runs):
         for backend in ("sqlite", "peewee"):
-            res = c06_kill.kill_run(backend, seed * 1000 + i, ck.rng.uniform(0.15, 1.2))
-            ck.count(f"sigkill:{backend}")
+            delay = ck.rng.uniform(0.15, 1.2) * (-1 if i % 5 == 4 else 1)   # every fifth: plain exit, no shutdown
+            res = c06_kill.kill_run(backend, seed * 1000 + i, delay)
+            ck.count(f"sigkill:{backend}" if delay > 0 else f"exit-without-shutdown:{backend}")
             ck.count(f"sigkill:{backend}:statements-logged", res["logged"])
             ck.count(f"sigkill:{backend}:lost-writes", res.get("lost", 0))
             ck.evaluations += 1
